@@ -322,15 +322,40 @@ func runC17(c *Ctx) {
 		rejected := map[string]bool{}
 
 		for name, val := range kinds {
-			// the edge `Kind == val` leads to an error return without passing another kind test?
+			// under the assumption `Kind == val` (every edge that contradicts it is cut — wherever the kind tests
+			// are written: in line, in a switch, in a predicate helper), can the input still be registered?
+			assume := func(e EdgeInfo) bool {
+				for _, fact := range e.Facts {
+					if Glob("ne(*.Kind,const:"+val+")", fact) {
+						return true
+					}
+
+					for _, other := range kinds {
+						if other != val && Glob("eq(*.Kind,const:"+other+")", fact) {
+							return true
+						}
+					}
+				}
+
+				return false
+			}
+
+			// from every place reached through a `Kind == val` edge (also one that only shows after a
+			// predicate helper's result is resolved)
 			starts := p.EdgeSuccs(f, "eq(*.Kind,const:"+val+")")
 			if len(starts) == 0 {
 				continue
 			}
 
-			if bad, _ := p.Reach(starts, p.CallTo(dbT+".AddControllerInput", dbT+".GetControllerInputs"), CutSpec{}); !bad {
+			if bad, _ := p.Reach(starts, p.CallTo(dbT+".AddControllerInput", dbT+".GetControllerInputs"), CutSpec{Edges: assume}); !bad {
 				rejected[name] = true
 			}
+		}
+
+		if len(p.Calls(f, dbT+".AddControllerInput", dbT+".GetControllerInputs")) == 0 {
+			c.Unknown("R17.8", FuncName(f)+" :: rejected input kinds", fpos(f), "anchor-unresolved: the function no longer registers or compares inputs through the dependency database")
+
+			return
 		}
 
 		c.Check(joinSorted(rejected) == joinSorted(wantRejected), "R17.8", FuncName(f)+" :: rejected input kinds", fpos(f), joinSorted(rejected), "rejects {"+joinSorted(rejected)+"}, expected {"+joinSorted(wantRejected)+"}")
